@@ -106,6 +106,12 @@ Theorem C18_epoch_page_exact : forall last index size,
     else rev (zseq (Z.max 0 (last - index * size - size + 1)) (Z.to_nat (last - index * size - Z.max 0 (last - index * size - size + 1) + 1))).
 Proof. exact epoch_page_exact. Qed.
 
+(* ... and the first k pages hold every epoch last..0 exactly once, newest first, as soon as k*size covers them *)
+Theorem C18_epoch_pages_partition : forall last size k,
+  0 <= last < two63 / 2 -> 0 < size <= RpcMaxPageSize -> Z.of_nat k < two32 -> last + 1 <= Z.of_nat k * size ->
+  concat (map (fun i => epoch_page last (Z.of_nat i) size) (seq 0 k)) = rev (zseq 0 (Z.to_nat (last + 1))).
+Proof. exact epoch_pages_partition. Qed.
+
 (* record of finding F13 (fixed in /repo): the 32-bit product index*count selected page 0 again ... *)
 Theorem C18_getrange_wrap_refuted :
   exists index size n, in_u32 index /\ in_u32 size /\ in_u32 n /\ 0 < size <= RpcMaxPageSize /\
